@@ -26,6 +26,7 @@ type SmallCase struct {
 	Mode    string    `json:"mode"`
 	Mag     string    `json:"mag"` // ternary | gauss | 16bit | max
 	InPlace bool      `json:"inPlace"`
+	Full    bool      `json:"full,omitempty"` // rings and polynomials at the maximum levels; only the levelP argument selects the target limbs
 	Seed    uint64    `json:"seed"`
 }
 
@@ -41,6 +42,7 @@ func genSmall(t *rapid.T) SmallCase {
 	c.LevelP = rapid.IntRange(0, len(c.Chain.P)-1).Draw(t, "levelP")
 	c.Mag = []string{"ternary", "gauss", "16bit", "max"}[rapid.IntRange(0, 3).Draw(t, "mag")]
 	c.InPlace = rapid.Bool().Draw(t, "inPlace")
+	c.Full = rapid.Bool().Draw(t, "full")
 	c.Seed = rapid.Uint64().Draw(t, "seed")
 	return c
 }
@@ -114,10 +116,29 @@ func runSmall(c SmallCase, rec *h.Rec) error {
 			dirty(outQ, Q, c.Seed+1)
 		}
 		outP := ringP.NewPoly()
-		dirty(outP, tgt, c.Seed+2)
+		var stale ring.Poly
+		if c.Full {
+			// the ring of the parameters (maximum levels), a receiver with an earlier life at the maximum level
+			rqp = ringqp.Ring{RingQ: ringQ, RingP: rP}
+			outP = rP.NewPoly()
+		}
+		dirty(outP, c.Chain.P, c.Seed+2)
+		stale = *outP.CopyNew()
 		rqp.ExtendBasisSmallNormAndCenter(in, c.LevelP, outQ, outP)
 		if !outQ.Equal(&inCopy) {
 			return h.Failf("C02:"+name+":Q-part-changed", "the Q part of the output differs from the input (levelQ=%d, inPlace=%v)", c.LevelQ, c.InPlace)
+		}
+		if !c.InPlace && !in.Equal(&inCopy) {
+			return h.Failf("C02:"+name+":input-modified", "the input polynomial was modified by an out-of-place call (levelQ=%d)", c.LevelQ)
+		}
+		for i := c.LevelP + 1; i < len(outP.Coeffs); i++ {
+			for j := range outP.Coeffs[i] {
+				if outP.Coeffs[i][j] != stale.Coeffs[i][j] {
+					rec.Class("limbs above levelP written")
+					i = len(outP.Coeffs)
+					break
+				}
+			}
 		}
 		got, over = limbs(outP, tgt)
 	case "nttmont", "nttQQ":
@@ -157,12 +178,13 @@ func runSmall(c SmallCase, rec *h.Rec) error {
 	}
 	rec.Classf("op=%s", name)
 	rec.Classf("mag=%s", c.Mag)
+	rec.Classf("full=%v", c.Full)
 	rec.Classf("ci=%v", c.Chain.CI)
 	rec.Classf("levelP=%s", lvlClass(c.LevelP, len(c.Chain.P)-1))
 	rec.Classf("Q0=%s", sizeClass(Q[:1]))
 	rec.Classf("tgt=%s", sizeClass(tgt))
 	if c.Mag != "ternary" || c.LevelP < len(c.Chain.P)-1 {
-		rec.NonTrivial(fmt.Sprintf("%s|N=%d|ci=%v|mag=%s|lq=%d|lp=%d/%d|Q0=%s|tgt=%s|inpl=%v", name, N, c.Chain.CI, c.Mag, c.LevelQ, c.LevelP, len(c.Chain.P)-1, sizeClass(Q[:1]), sizeClass(tgt), c.InPlace))
+		rec.NonTrivial(fmt.Sprintf("%s|N=%d|ci=%v|mag=%s|lq=%d|lp=%d/%d|Q0=%s|tgt=%s|inpl=%v|full=%v", name, N, c.Chain.CI, c.Mag, c.LevelQ, c.LevelP, len(c.Chain.P)-1, sizeClass(Q[:1]), sizeClass(tgt), c.InPlace, c.Full))
 	}
 	return nil
 }
